@@ -7,12 +7,15 @@ SPEC = {
     "pid": "C05",
     "facts": [],
     "bin": "c05",
-    "requires": "From AG Require Import Sched.",
+    "requires": "From AG Require Import Sched.\nFrom AG Require Import SchedCheck.",
     "def_type": "sdef",
     "streams": [
         {"kind": "CASE", "type": CASE_T,
          "eval": "fun c => let '(s, k, g, sc, r) := c in check_c05 s k 300 g sc r", "per_shard": 120},
+        # dynamic executor (and derive schema, fault-free): data independent of the completion order, lists of 3-4 object items included
+        {"kind": "DSCHED", "type": "dcase", "eval": "check_dsched", "per_shard": 150},
     ],
+    "extra_bins": [{"bin": "c04d", "extra_args": ["4", "30", "500"], "n_factor": 0.6}],
     "classes": {1: "uncaught-race", 2: "uncaught-error-drops-sibling-errors"},
     "n_quick": 70, "n_thorough": 500,
     "extra_args": [],
@@ -22,7 +25,10 @@ SPEC = {
              "(aliases, repeated keys, inline and named fragments, lists, failing resolvers at nullable and non-null positions, 0-20% faults); "
              "a set of <= 5 (thorough 6) gated response paths per tree, biased to siblings; EVERY order of gate openings when there are <= 125 "
              "(thorough 800) of them, random orders otherwise; schema.execute is polled by hand with a no-op waker; one case per (tree, order); "
-             "distinct by (document, faults, gates, order); non-trivial = at least one gate opened and a non-empty response"),
+             "lists of 3-4 distinct object items whose item fields are all gated (every completion order of the items, the reverse included; nullable items "
+             "with a failing item, non-null items); distinct by (document, faults, gates, order); non-trivial = at least one gate opened and a non-empty response. "
+             "Stream DSCHED (c04d.rs): fault-free queries and mutations on a dynamic::Schema (objects, nested objects, lists of 3 and 4 objects) and on the derive "
+             "schema under every order of <= 4 gates: data equals the all-ready run's"),
     "trusted": ["harness scheduler (manual polling, oneshot gates) and event log of harness/src/family.rs",
                 "differential sampling: Sched.v run = real executor on data, error list (in order) and Start/End event log, per schedule",
                 "futures-util TryJoinAll small variant as transcribed in Sched.v (joins of more than 30 children are excluded)"],
